@@ -135,6 +135,8 @@ def run(check, an: Analysis):
     _kernel.check_kernel_core(check, an)
     from . import _scope as _sc
     _sc.check_until_core(check, an)
+    from . import c03 as _c03
+    _c03.check_activation_flags(check, an, 'C')
     check.stats.update(an.stats())
 
 
@@ -242,6 +244,15 @@ def _check_wakeups(check, an: Analysis):
                            'the condition that the store can make true is triggered before '
                            'the next suspension (%d stores on paths)' % n_sites,
                            path=rules.path_lines(*bad) if bad else None, analysed=n_sites)
+    check_tracked_told(check, an, 'W')
+    check_comparison_trigger(check, an, 'W')
+    _check_comparison_listens(check, an)
+
+
+def check_tracked_told(check, an: Analysis, rule: str):
+    """a new value of a tracked object is told to every comparison listening, in the very
+    atomic block that stores it (a signal arriving at the next suspension must not come
+    between the change and the news of it)"""
     # tracked values: all listeners are told
     for fn, stmt, target, recvs in rules.attribute_stores(an, '_value', TRACKED):
         if fn.name == '__init__' or TRACKED not in recvs:
@@ -260,13 +271,11 @@ def _check_wakeups(check, an: Analysis):
                         ok = False
                         bad = bad or (path, index)
         body_ok = _all_listeners_told(an, callee, stmt)
-        check.instance('W', '%s:self._value=' % short(fn.qn), ok and n_sites > 0 and body_ok,
+        check.instance(rule, '%s:self._value=' % short(fn.qn), ok and n_sites > 0 and body_ok,
                        '%s:%d' % (fn.module.relpath, stmt.lineno),
                        'every listener is told about the new value before the next '
                        'suspension (loop over all listeners: %s)' % body_ok,
                        path=rules.path_lines(*bad) if bad else None, analysed=n_sites)
-    check_comparison_trigger(check, an, 'W')
-    _check_comparison_listens(check, an)
 
 
 def check_comparison_trigger(check, an: Analysis, rule: str):
